@@ -2713,4 +2713,117 @@ theorem gen_updateVersion (o : V2.T_OperatorClaims) (a : V2.T_AccountClaims) (u 
     (∃ r', V2.AuthorizationResponseClaims_updateVersion r = some r' ∧ r'.f_AuthorizationResponse.f_GenericFields.f_Version = 2) :=
   ⟨⟨_, rfl, rfl⟩, ⟨_, rfl, rfl⟩, ⟨_, rfl, rfl⟩, ⟨_, rfl, rfl⟩, ⟨_, rfl, rfl⟩, ⟨_, rfl, rfl⟩⟩
 
+/-! ## C19: the decision logic of the version-1 `Decode(token, target)`, as translated -/
+
+/-- one arm of the `switch p` of the v1 `Decode` (it knows the cluster role too) -/
+def prefixOk1 (opq : V1.Opq) (issuer : Str) (p : Int) : Bool :=
+  (p == 0 && opq.nkeys_IsValidPublicAccountKey issuer) || (p == 112 && opq.nkeys_IsValidPublicOperatorKey issuer) ||
+  (p == 104 && opq.nkeys_IsValidPublicServerKey issuer) || (p == 16 && opq.nkeys_IsValidPublicClusterKey issuer) ||
+  (p == 160 && opq.nkeys_IsValidPublicUserKey issuer)
+
+theorem v1_decode_loop (issuer : Str) (opq : V1.Opq) (ps : List Int) (i : Int) (ok : Bool) :
+    forRangeFrom (V1.Decode.loop1 issuer opq) i ps ok = some (.done (ok || ps.any (prefixOk1 opq issuer))) := by
+  have hb : ∀ (i : Int) (p : Int) (ok : Bool),
+      V1.Decode.loop1 issuer opq i p ok = some (.next (ok || prefixOk1 opq issuer p)) := by
+    intro i p ok
+    unfold V1.Decode.loop1 prefixOk1
+    by_cases h0 : p = 0
+    · subst h0; cases opq.nkeys_IsValidPublicAccountKey issuer <;> simp
+    · by_cases h1 : p = 112
+      · subst h1; cases opq.nkeys_IsValidPublicOperatorKey issuer <;> simp
+      · by_cases h2 : p = 104
+        · subst h2; cases opq.nkeys_IsValidPublicServerKey issuer <;> simp
+        · by_cases h3 : p = 16
+          · subst h3; cases opq.nkeys_IsValidPublicClusterKey issuer <;> simp
+          · by_cases h4 : p = 160
+            · subst h4; cases opq.nkeys_IsValidPublicUserKey issuer <;> simp
+            · simp [h0, h1, h2, h3, h4]
+  rw [forRangeFrom_fold _ _ hb]
+  congr 2
+  induction ps generalizing ok with
+  | nil => simp
+  | cons p ps ih => simp [ih, Bool.or_assoc]
+
+/-- the issuer the v1 role loop reads through `Claims()` -/
+def v1Issuer : V1.I_Claims → Str
+  | .AccountClaims v => v.f_ClaimsData.f_Issuer
+  | .ActivationClaims v => v.f_ClaimsData.f_Issuer
+  | .ClusterClaims v => v.f_ClaimsData.f_Issuer
+  | .GenericClaims v => v.f_ClaimsData.f_Issuer
+  | .OperatorClaims v => v.f_ClaimsData.f_Issuer
+  | .ServerClaims v => v.f_ClaimsData.f_Issuer
+  | .UserClaims v => v.f_ClaimsData.f_Issuer
+
+/-- **The version-1 `Decode` accepts only authentic tokens (translated code).** If it returns no error, the token had
+three chunks, header, payload (parsed into the target) and signature decoded without error, the filled target's
+`Verify` accepted the signature over the payload chunk, and its issuer passes the validator of one of the roles its
+kind expects (generic claims expect none). -/
+theorem v1_decode_accepts (opq : V1.Opq) (tok : Str) (t : V1.I_Claims)
+    (h : V1.Decode tok (some t) opq = some false) :
+    ∃ hd p s hdr t' sig,
+      splitOn '.' tok = [hd, p, s] ∧
+      opq.parseHeaders hd = some (hdr, false) ∧
+      opq.parseClaims p (some t) = some (some t', false) ∧
+      opq.decodeString s = some (sig, false) ∧
+      opq.Claims_Verify t' p sig = true ∧
+      (match V1.I_Claims.ExpectedPrefixes t' with
+       | some (some ps) => ps.any (prefixOk1 opq (v1Issuer t')) = true
+       | _ => True) := by
+  unfold V1.Decode at h
+  have hs : GoRt.split tok ['.'] = splitOn '.' tok := rfl
+  simp only [hs] at h
+  rcases hsp : splitOn '.' tok with _ | ⟨hd, _ | ⟨p, _ | ⟨s, _ | ⟨d, l⟩⟩⟩⟩
+  · simp [hsp, len] at h
+  · simp [hsp, len] at h
+  · simp [hsp, len] at h
+  · have i0 : idx [hd, p, s] 0 = some hd := rfl
+    have i1 : idx [hd, p, s] 1 = some p := rfl
+    have i2 : idx [hd, p, s] 2 = some s := rfl
+    have h3 : ((((0 : Nat) + 1 + 1 + 1 : Nat) : Int) != 3) = false := by decide
+    simp only [hsp, len, List.length_cons, List.length_nil, i0, i1, i2, h3, Option.pure_def, Option.bind_eq_bind,
+      Option.bind_some, Bool.false_eq_true, if_false] at h
+    rcases hph : opq.parseHeaders hd with _ | ⟨hdr, e1⟩
+    · simp [hph] at h
+    cases e1
+    case true => simp [hph] at h
+    rcases hpc : opq.parseClaims p (some t) with _ | ⟨t1, e2⟩
+    · simp [hph, hpc] at h
+    cases e2
+    case true => simp [hph, hpc] at h
+    rcases hds : opq.decodeString s with _ | ⟨sig, e3⟩
+    · simp [hph, hpc, hds] at h
+    cases e3
+    case true => simp [hph, hpc, hds] at h
+    simp only [hph, hpc, hds, Option.bind_some, Bool.false_eq_true, if_false] at h
+    cases t1 with
+    | none => simp at h
+    | some t' =>
+      simp only [Option.bind_some] at h
+      cases t' <;>
+        simp only [V1.I_Claims.ExpectedPrefixes, V1.AccountClaims_ExpectedPrefixes, V1.OperatorClaims_ExpectedPrefixes,
+          V1.UserClaims_ExpectedPrefixes, V1.ActivationClaims_ExpectedPrefixes, V1.ClusterClaims_ExpectedPrefixes,
+          V1.ServerClaims_ExpectedPrefixes, V1.GenericClaims_ExpectedPrefixes, V1.I_Claims.Claims, V1.AccountClaims_Claims,
+          V1.OperatorClaims_Claims, V1.UserClaims_Claims, V1.ActivationClaims_Claims, V1.ClusterClaims_Claims,
+          V1.ServerClaims_Claims, V1.GenericClaims_Claims, forRange, v1_decode_loop, Option.pure_def, Option.bind_eq_bind,
+          Option.bind_some, Option.isSome_some, Option.isSome_none, if_true, Bool.false_or, Bool.false_eq_true, if_false] at h
+      all_goals
+        split at h
+        · simp at h
+        · first
+          | (split at h
+             · simp at h
+             · rename_i hV hA
+               simp only [Bool.not_eq_true', Bool.not_eq_false] at hV hA
+               refine ⟨hd, p, s, hdr, _, sig, rfl, hph, hpc, hds, hV, ?_⟩
+               simp only [V1.I_Claims.ExpectedPrefixes, V1.AccountClaims_ExpectedPrefixes, V1.OperatorClaims_ExpectedPrefixes,
+                 V1.UserClaims_ExpectedPrefixes, V1.ActivationClaims_ExpectedPrefixes, V1.ClusterClaims_ExpectedPrefixes,
+                 V1.ServerClaims_ExpectedPrefixes, v1Issuer, Option.pure_def]
+               exact hA)
+          | (rename_i hV
+             simp only [Bool.not_eq_true', Bool.not_eq_false] at hV
+             refine ⟨hd, p, s, hdr, _, sig, rfl, hph, hpc, hds, hV, ?_⟩
+             simp [V1.I_Claims.ExpectedPrefixes, V1.GenericClaims_ExpectedPrefixes])
+  · have hl : ¬ ((l.length : Int) + 1 + 1 + 1 + 1 = 3) := by omega
+    simp [hsp, len, hl] at h
+
 end Jwt.FnTie
